@@ -65,7 +65,8 @@ def discharge(ob: Obligation, timeout_ms: Optional[int] = None) -> Obligation:
     hyps = _hyps(ob)
     tactics: List[Tuple[str, Any]] = []
     s = z3.Solver()
-    s.set("timeout", timeout_ms or Z3_TIMEOUT_MS)
+    timeout_ms = timeout_ms or ob.info.get("timeout_ms") or Z3_TIMEOUT_MS
+    s.set("timeout", timeout_ms)
     s.add(*hyps)
     s.add(z3.Not(ob.goal))
     r = s.check()
@@ -99,6 +100,8 @@ def discharge(ob: Obligation, timeout_ms: Optional[int] = None) -> Obligation:
         who = ""
         # nlsat tactic in-process
         try:
+            if ob.info.get("bit_precise"):
+                raise z3.Z3Exception("skip nlsat for FP/BV queries")
             g = z3.Goal()
             g.add(*hyps)
             g.add(z3.Not(ob.goal))
